@@ -8,7 +8,7 @@ from typing import Dict, List, Set
 from ..core import astutil as A
 from ..core.index import AnalysisError, ClassInfo, FuncInfo
 from ..selftest import M
-from .common import T, attr_stores, calls_named, every_origin, facts, need, where
+from .common import is_early_exit_guard, may_conds, T, attr_stores, calls_named, every_origin, facts, need, where
 
 FC = "ufo2ft.featureCompiler.FeatureCompiler"
 
@@ -94,6 +94,8 @@ def run(prog, chk):
         "the font's scripts are guessed from exported glyphs only: a script of skipped glyphs would be registered by the kern writer alone (R20.6, shared with C13)",
         "a generated feature is inserted as its own top-level block, never into a user's block where it would inherit a script / language statement (R20.7, shared with C17)",
     ]
+    chk.decided += ["addLookupReferences registers the lookups under every language it is handed for the script (the only one passed over is 'dflt' where the default language system is written "
+                    "anyway; an empty list means 'dflt'): no declared language system of a script is left without the generated kerning (R20.8)"]
     chk.not_decided += ["which scripts a given font ends up with in the compiled ScriptList"]
     writers = default_writers(prog)
     gpos = []
@@ -138,6 +140,7 @@ def run(prog, chk):
     chk.guard(check_scripts_from_exported_glyphs, prog, chk, "R20.6")
     from .c17 import check_generated_blocks_top_level
     chk.guard(check_generated_blocks_top_level, prog, chk, "R20.7")
+    chk.guard(r208, prog, chk)
 
 
 def feature_tags(prog, w: ClassInfo) -> Set[str]:
@@ -327,7 +330,48 @@ def r205(prog, chk):
     chk.minimum("R20.5", 2)
 
 
+# ----------------------------------------------------------------------------- R20.8
+def r208(prog, chk):
+    ix = prog.ix
+    f = ix.get_func("ufo2ft.featureWriters.ast:addLookupReferences")
+    ps = f.params()
+    need(len(ps) >= 4, f"cannot interpret {f.short}: parameters")
+    langs = ps[3]
+    loops = []
+    for lp in [n for n in A.body_nodes(f.node) if isinstance(n, ast.For) and isinstance(n.target, ast.Name)]:
+        if any(isinstance(c, ast.Call) and A.callee_name(c) == "LanguageStatement" and c.args and T(c.args[0]) == lp.target.id for c in A.body_nodes(lp)):
+            loops.append(lp)
+    need(len(loops) == 2, f"cannot interpret {f.short}: language loops ({len(loops)})")
+    for lp in loops:
+        it = lp.iter
+        src = it.values[0] if isinstance(it, ast.BoolOp) and isinstance(it.op, ast.Or) and len(it.values) == 2 else it
+        fb = it.values[1] if src is not it else None
+        ok = isinstance(src, ast.Name) and src.id == langs and all(d.kind == "param" for d in prog.reaching(f, langs, src))
+        okf = fb is None or (isinstance(fb, (ast.Tuple, ast.List)) and all(isinstance(e, ast.Constant) and e.value == "dflt" for e in fb.elts))
+        # languages passed over inside the loop: only 'dflt', and only where the default language system was already written
+        skips = [n for n in ast.walk(lp) if isinstance(n, (ast.Continue, ast.Break))]
+        oks = True
+        for sk in skips:
+            fs = facts(prog, f, sk)
+            oks = oks and isinstance(sk, ast.Continue) and any(o == "eq" and {l, r} == {lp.target.id, "'dflt'"} for o, l, r in fs)
+        ls = [c for c in A.body_nodes(lp) if isinstance(c, ast.Call) and A.callee_name(c) == "LanguageStatement"]
+        okl = len(ls) == 1 and not [g for g in may_conds(prog, f, ls[0]) if g.kind in ("if", "boolop", "ifexp") and any(a is lp for a in ix.ancestors(g.loc)) and not is_early_exit_guard(prog, f, g)]
+        if skips:
+            # a 'dflt' statement with the lookups precedes the loop on this path
+            cfg = prog.cfg(f)
+            dfl = [c for c in A.body_nodes(f.node) if isinstance(c, ast.Call) and A.callee_name(c) == "LanguageStatement" and c.args and A.is_const(c.args[0], "dflt")]
+            oks = oks and any(cfg.dominates(cfg.node_of(c), cfg.node_of(lp)) for c in dfl)
+        chk.ob("R20.8", f"{f.short}|{A.keytext(f.node, lp)[:60]}|every language handed in gets its language statement", ok and okf and oks and okl, where(f, lp), detail=T(it, 60),
+               message=f"{f.short}: the loop `for {lp.target.id} in {T(it, 40)}` does not cover every language of the list it was handed (or falls back to something else than 'dflt'): "
+                       f"a language system the feature file declares for the script gets no reference to the generated lookups")
+    chk.minimum("R20.8", 2)
+
+
 MUTANTS = [
+    M("declared languages replaced by dflt when the default is excluded (mutation scan 4, k=20)", "ufo2ft/featureWriters/ast.py", "addLookupReferences",
+      "languages or ('dflt',)", "languages and ('dflt',)", rule="R20.8"),
+    M("only the first declared language is registered", "ufo2ft/featureWriters/ast.py", "addLookupReferences",
+      "languages or ()", "(languages or ())[:1]", rule="R20.8"),
     M("generated statements spliced into the user's block at a mid-block marker (seeded C20g)", "ufo2ft/featureWriters/baseFeatureWriter.py", "BaseFeatureWriter._insert",
       "block.statements = block.statements[:markerIndex]", "block.statements = block.statements[:markerIndex]\nblock.statements[markerIndex:markerIndex] = feature.statements", rule="R20.7"),
     M("scripts guessed from non-exported glyphs too (seeded C20f)", "ufo2ft/featureWriters/baseFeatureWriter.py", "BaseFeatureWriter.guessFontScripts",
